@@ -237,4 +237,49 @@ theorem variableDefinitionV_plain (x : VariableDefinition) : (variableDefinition
   simp [variableDefinitionV, Item.plain, Item.plainAll, plainAll_append, variableV_plain, typeV_plain, defaultV_plain,
     directivesV_plain]
 
+/-! ### members of type-system definitions -/
+
+theorem descV_up (d : Nat) (o : Option StringValue) :
+    descV (o.map (StringValue.mapLoc (locUp d))) = Item.upAll d (descV o) :=
+  optV_up d _ stringV (stringV_up d) o
+
+theorem operationTypeV_up (d : Nat) (x : OperationTypeDefinition) :
+    operationTypeV (x.mapLoc (locUp d)) = (operationTypeV x).up d := by
+  simp [operationTypeV, OperationTypeDefinition.mapLoc, Item.up, Item.upAll, namedTypeV_up]
+
+theorem inputValueV_up (d : Nat) (x : InputValueDefinition) :
+    inputValueV (x.mapLoc (locUp d)) = (inputValueV x).up d := by
+  simp [inputValueV, InputValueDefinition.mapLoc, Item.up, Item.upAll, upAll_append, descV_up, nameV_up,
+    typeV_up, defaultV_up, directivesV_up]
+
+theorem fieldDefinitionV_up (d : Nat) (x : FieldDefinition) :
+    fieldDefinitionV (x.mapLoc (locUp d)) = (fieldDefinitionV x).up d := by
+  simp [fieldDefinitionV, FieldDefinition.mapLoc, Item.up, Item.upAll, upAll_append, descV_up, nameV_up,
+    typeV_up, directivesV_up, groupV_up d _ inputValueV (inputValueV_up d)]
+
+theorem enumValueDefinitionV_up (d : Nat) (x : EnumValueDefinition) :
+    enumValueDefinitionV (x.mapLoc (locUp d)) = (enumValueDefinitionV x).up d := by
+  simp [enumValueDefinitionV, EnumValueDefinition.mapLoc, Item.up, Item.upAll, upAll_append, descV_up, nameV_up,
+    directivesV_up]
+
+
+theorem plainAll_optV {α} (f : α → Item) (o : Option α) (h : ∀ x, (f x).plain = true) : Item.plainAll (optV f o) = true := by
+  cases o <;> simp [optV, Item.plainAll, h]
+
+theorem descV_plain (o : Option StringValue) : Item.plainAll (descV o) = true := plainAll_optV _ _ stringV_plain
+
+theorem operationTypeV_plain (d : OperationTypeDefinition) : (operationTypeV d).plain = true := by
+  simp [operationTypeV, Item.plain, Item.plainAll, namedTypeV_plain]
+
+theorem inputValueV_plain (d : InputValueDefinition) : (inputValueV d).plain = true := by
+  simp [inputValueV, Item.plain, Item.plainAll, plainAll_append, descV_plain, nameV_plain, typeV_plain, defaultV_plain,
+    directivesV_plain]
+
+theorem fieldDefinitionV_plain (d : FieldDefinition) : (fieldDefinitionV d).plain = true := by
+  simp [fieldDefinitionV, Item.plain, Item.plainAll, plainAll_append, descV_plain, nameV_plain, typeV_plain,
+    directivesV_plain, plainAll_groupV _ _ inputValueV _ inputValueV_plain]
+
+theorem enumValueDefinitionV_plain (d : EnumValueDefinition) : (enumValueDefinitionV d).plain = true := by
+  simp [enumValueDefinitionV, Item.plain, Item.plainAll, plainAll_append, descV_plain, nameV_plain, directivesV_plain]
+
 end PyGql.Spec
